@@ -36,7 +36,7 @@ def bcast_into(src, dst):
         return False
 
 
-def gen_case(rng, n_stmts, p_fail=0.2, p_clear=0.06):
+def gen_case(rng, n_stmts, p_fail=0.2, p_clear=0.06, p_back=0.0):
     """returns the list of statements; shapes are tracked with NumPy so that every statement is valid (or fails by design)"""
     shapes, owner, stmts = [], [], []        # per name: shape, is the owner of C-contiguous memory
 
@@ -104,7 +104,7 @@ def gen_case(rng, n_stmts, p_fail=0.2, p_clear=0.06):
                 if rng.random() < 0.15:
                     args = [i, i]
             stmts.append({"s": "op", "f": f, "args": args}); shapes.append(shapes[i]); owner.append(False)   # (layout follows the operands: not nec. C-contiguous)
-        elif r < 1.0 - p_clear:      # in-place
+        elif r < 1.0 - p_clear - p_back:      # in-place
             f = rng.choice(["setitem", "setitem", "iadd", "imul", "isub", "add_out", "mul_out", "exp_out", "add_out_where", "mul_out_where"])
             fail = rng.random() < p_fail
             bad = {"raw": [11, 13]}
@@ -133,8 +133,10 @@ def gen_case(rng, n_stmts, p_fail=0.2, p_clear=0.06):
                 if not fail and not any(isinstance(x, int) and shapes[x] == shapes[i] for x in s["args"]):
                     s["args"][0] = i        # the result must fill the target
             stmts.append(s)
-        else:
+        elif r < 1.0 - p_back:
             stmts.append({"s": "clear", "t": i})
+        else:
+            stmts.append({"s": "backward", "t": i})
     return stmts
 
 
@@ -155,6 +157,8 @@ def coq_stmt(s):
                                              "true" if s["fail"] else "false")
     if k == "clear":
         return "NClear %d" % s["t"]
+    if k == "backward":
+        return "NBackward %d" % s["t"]
     raise HarnessError(k)
 
 
@@ -169,9 +173,9 @@ def coq_case(stmts, obs):
 HEADER = "From Coq Require Import List Bool. Import ListNotations.\nFrom MG Require Import Model.Heap Model.HeapCorr.\n"
 
 
-def run(rep, work, seed, n_cases, n_stmts, replay=None, tag="heap", p_fail=0.2, p_clear=0.06, label="pointer-level heap"):
+def run(rep, work, seed, n_cases, n_stmts, replay=None, tag="heap", p_fail=0.2, p_clear=0.06, p_back=0.0, label="pointer-level heap"):
     rng = random.Random(seed * 7919 + 17)
-    cases = [gen_case(rng, rng.randrange(4, n_stmts + 1), p_fail=p_fail, p_clear=p_clear) for _ in range(n_cases)]
+    cases = [gen_case(rng, rng.randrange(4, n_stmts + 1), p_fail=p_fail, p_clear=p_clear, p_back=p_back) for _ in range(n_cases)]
     if replay is not None and "heap_case" in replay:
         cases = [replay["heap_case"]]
     elif replay is not None:
@@ -184,6 +188,12 @@ def run(rep, work, seed, n_cases, n_stmts, replay=None, tag="heap", p_fail=0.2, 
     for c, r in zip(cases, res):
         if "harness_error" in r:
             raise HarnessError("heap runner: %s on %s" % (r["harness_error"], json.dumps(c)))
+    n_trunc = 0
+    for k2, (c, r) in enumerate(zip(cases, res)):
+        if r["obs"] and r["obs"][-1].get("truncated"):
+            n_trunc += 1
+            r["obs"].pop()
+            cases[k2] = c[:len(r["obs"])]
     terms = [coq_case(c, r["obs"]) for c, r in zip(cases, res)]
     bad = []
     for idx, lst in gh.coq_eval_indices(terms, "hcase", "heap_failing", work, tag, shard=60, header=HEADER):
@@ -208,7 +218,7 @@ def run(rep, work, seed, n_cases, n_stmts, replay=None, tag="heap", p_fail=0.2, 
         for s, o in zip(c, r["obs"]):
             kk = s["s"] + (":" + s["f"] if "f" in s else "") + (":raised" if o["raised"] else "")
             kinds[kk] = kinds.get(kk, 0) + 1
-    return {"cases": len(cases), "statements": sum(len(c) for c in cases), "model_mismatches": len(bad), "stray": len(stray), "statement_kinds": kinds,
+    return {"cases": len(cases), "histories_cut_at_an_InvalidBackprop": n_trunc, "statements": sum(len(c) for c in cases), "model_mismatches": len(bad), "stray": len(stray), "statement_kinds": kinds,
             "inplace_ok": sum(v for k2, v in kinds.items() if k2.startswith("inplace") and not k2.endswith("raised")),
             "inplace_raised": sum(v for k2, v in kinds.items() if k2.startswith("inplace") and k2.endswith("raised")),
             "max_objects": max((len(o["canon"]) for r in res for o in r["obs"]), default=0)}
